@@ -18,7 +18,8 @@
 (***************************************************************************)
 EXTENDS Integers, Sequences, FiniteSets, TLC, Json, IOUtils, SequencesExt
 
-CONSTANTS MaxLen, Sizes, Toks, UnitPrefixes, CaseFile, ResultFile
+CONSTANTS MaxLen, Sizes, Toks, UnitPrefixes, CaseFile, ResultFile,
+          IfRangeOn   \* also generate the If-Range cases (end-to-end runs only: they need a stored representation)
 
 WS      == {"SP", "TAB"}
 Small   == {"0", "1", "5", "9"}
@@ -81,16 +82,46 @@ SeqsUpTo(n) == IF n = 0 THEN {<<>>} ELSE LET S == SeqsUpTo(n - 1) IN S \cup {App
 \* every tail up to MaxLen behind the proper unit; short tails behind the other prefixes
 Cases == {[p |-> "bytes=", t |-> tail] : tail \in SeqsUpTo(MaxLen)}
          \cup {[p |-> p, t |-> tail] : p \in UnitPrefixes \ {"bytes="}, tail \in SeqsUpTo(IF MaxLen < 3 THEN MaxLen ELSE 3)}
-CaseSeq == SetToSeq(Cases)
+-----------------------------------------------------------------------------
+(* If-Range: the range is honoured only if the validator matches the stored representation, which carries       *)
+(* ETag "v1" and a Last-Modified date LM; otherwise the full 200 is the answer.  Forms (rendered by the driver): *)
+IRClass(f) == CASE f = "etag_match"        -> "match"      \* "v1" (quoted, as stored)
+                [] f = "etag_other"        -> "mismatch"   \* "v2"
+                [] f = "etag_unquoted"     -> "mismatch"   \* v1 without quotes: not the stored validator
+                [] f = "star"              -> "mismatch"   \* *
+                [] f = "etag_weak"         -> "either"     \* W/"v1": weak comparison is not allowed for If-Range, some allow it
+                [] f = "date_eq"           -> "match"      \* LM as IMF-fixdate
+                [] f = "date_older"        -> "mismatch"   \* a day before LM, IMF-fixdate
+                [] f = "date_older_850"    -> "mismatch"   \* a day before LM, RFC 850 form
+                [] f = "date_older_asc"    -> "mismatch"   \* a day before LM, asctime form
+                [] f = "date_nogmt"        -> "mismatch"   \* LM without the zone: not a date, not the validator
+                [] f = "date_garbage"      -> "mismatch"   \* "yesterday"
+                [] f = "date_eq_850"       -> "either"     \* LM spelled in the obsolete form
+                [] f = "date_newer"        -> "either"     \* a day after LM
+                [] f = "empty"             -> "either"
+IRForms == {"etag_match", "etag_other", "etag_unquoted", "star", "etag_weak", "date_eq", "date_older", "date_older_850", "date_older_asc",
+            "date_nogmt", "date_garbage", "date_eq_850", "date_newer", "empty"}
+IRTails == {<<"1", "-", "5">>, <<"0", "-">>, <<"-", "5">>, <<"9", "-", "9", "9">>}
+IRCases == IF IfRangeOn THEN {[p |-> "bytes=", t |-> tail, ir |-> f] : tail \in IRTails, f \in IRForms} ELSE {}
+PlainSeq == SetToSeq(Cases)
+IRSeq == SetToSeq(IRCases)
+CaseSeq == [i \in 1..(Len(PlainSeq) + Len(IRSeq)) |->
+              IF i <= Len(PlainSeq) THEN [p |-> PlainSeq[i].p, t |-> PlainSeq[i].t, ir |-> "none"] ELSE IRSeq[i - Len(PlainSeq)]]
 WriteCases == ndJsonSerialize(CaseFile, CaseSeq)
 
 -----------------------------------------------------------------------------
 (* judging recorded results: one line per (case, size): [p, t, size, out] with out a tuple as above *)
 Results == ndJsonDeserialize(ResultFile)
 OutOf(r) == IF r.out[1] = "206" THEN <<"206", r.out[2], r.out[3]>> ELSE <<r.out[1]>>
-Bad == {i \in 1..Len(Results) : OutOf(Results[i]) \notin Allowed(Results[i].p, Results[i].t, Results[i].size)}
+IROf(r) == IF "ir" \in DOMAIN r THEN r.ir ELSE "none"
+AllowedIR(r) == LET a == Allowed(r.p, r.t, r.size) IN
+                IF IROf(r) = "none" THEN a
+                ELSE CASE IRClass(IROf(r)) = "match" -> a
+                       [] IRClass(IROf(r)) = "mismatch" -> {<<"200">>}
+                       [] OTHER -> a \cup {<<"200">>}
+Bad == {i \in 1..Len(Results) : OutOf(Results[i]) \notin AllowedIR(Results[i])}
 Judge == PrintT(<<"RANGE-RESULT", Len(Results), Cardinality(Bad),
                   [i \in (IF Bad = {} THEN {} ELSE {CHOOSE x \in Bad : \A y \in Bad : x <= y}) |->
-                      [case |-> Results[i], allowed |-> Allowed(Results[i].p, Results[i].t, Results[i].size)]],
+                      [case |-> Results[i], allowed |-> AllowedIR(Results[i])]],
                   {<<Results[i].p, Results[i].t>> : i \in {j \in Bad : j <= 400}}>>)
 =============================================================================
